@@ -21,6 +21,17 @@ Proof.
 Qed.
 Print Assumptions C09_product_entry_points_agree.
 
+(* the right operand may be a Quaternion object of either storage order *)
+Theorem C09_product_operand_storage_order : forall a b c d w x y z, 0 < a*a + b*b + c*c + d*d -> 0 < w*w + x*x + y*y + z*z ->
+  C09_product_QS_R a b c d w x y z = Val (qmul [a;b;c;d] [w;x;y;z]) /\
+  C09_mul_QS_R a b c d w x y z = Val (qmul [a;b;c;d] [w;x;y;z]) /\
+  C09_matmul_QH_R a b c d w x y z = Val (qmul [a;b;c;d] [w;x;y;z]).
+Proof.
+  intros a b c d w x y z Hp Hq. split; [exact (product_QS_spec a b c d w x y z Hp Hq)|].
+  split; [exact (mul_QS_spec a b c d w x y z Hp Hq)|exact (matmul_QH_spec a b c d w x y z Hp Hq)].
+Qed.
+Print Assumptions C09_product_operand_storage_order.
+
 (* hence associativity, norm multiplicativity and (pq)* = q* p* of the implemented product *)
 Theorem C09_algebra_laws : forall p q r : list R,
   qmul (qmul p q) r = qmul p (qmul q r) /\ qnorm2 (qmul p q) = qnorm2 p * qnorm2 q /\ qconj (qmul p q) = qmul (qconj q) (qconj p).
